@@ -67,6 +67,15 @@ def doConv {V} (env : Env V) (c : Option Char) (v : V) : Except Err V :=
   | none => .ok v
   | some c => if c = 'r' ∨ c = 's' ∨ c = 'a' then env.convert c v else .error .valueError
 
+/-- `get_field_object`: split the name, number/look up its first component, walk the rest -/
+def getFieldObject {V} (env : Env V) (an : AN) (name : Str) : Except Err (V × AN) :=
+  match lookupFirst env an (fieldNameSplit name).1 with
+  | .error e => .error e
+  | .ok (v, an1) =>
+    match walk env v (fieldNameSplit name).2 with
+    | .error e => .error e
+    | .ok v => .ok (v, an1)
+
 /-- `format_spec_needs_expanding` -/
 def needsExpanding (spec : Str) : Bool := spec.contains '{'
 
@@ -80,25 +89,21 @@ def renderPieces {V} (self : Str → AN → Except Err (Str × AN)) (env : Env V
       | .ok (r, an') => .ok (p.lit ++ r, an')
       | .error e => .error e
     | some f =>
-      let sp := fieldNameSplit f.name
-      match lookupFirst env an sp.1 with
+      match getFieldObject env an f.name with
       | .error e => .error e
       | .ok (v, an1) =>
-        match walk env v sp.2 with
+        match doConv env f.conv v with
         | .error e => .error e
         | .ok v =>
-          match doConv env f.conv v with
+          match (if needsExpanding f.spec then self f.spec an1 else .ok (f.spec, an1)) with
           | .error e => .error e
-          | .ok v =>
-            match (if needsExpanding f.spec then self f.spec an1 else .ok (f.spec, an1)) with
+          | .ok (spec, an2) =>
+            match env.format v spec with
             | .error e => .error e
-            | .ok (spec, an2) =>
-              match env.format v spec with
+            | .ok s =>
+              match renderPieces self env ps an2 with
+              | .ok (r, an3) => .ok (p.lit ++ s ++ r, an3)
               | .error e => .error e
-              | .ok s =>
-                match renderPieces self env ps an2 with
-                | .ok (r, an3) => .ok (p.lit ++ s ++ r, an3)
-                | .error e => .error e
 
 /-- `build_string` with `recursion_depth = d` -/
 def buildString {V} (env : Env V) : Nat → Str → AN → Except Err (Str × AN)
